@@ -78,10 +78,42 @@ static void report(std::string const& kind, std::string const& cs, std::string c
   vf::J("viol").s("kind", kind).s("case", cs).s("detail", detail).emit();
 }
 
-// kind: 0 static macro, 1 LOG_DYNAMIC, 2 LOG_RUNTIME_METADATA
+// kind: 0 static macro, 1 LOG_DYNAMIC, 2 LOG_RUNTIME_METADATA, 3 LOGV_ family (value macros), 4 LOG_*_TAGS family
 static void issue(Logger* l, int kind, int level)
 {
   LogLevel const ll = static_cast<LogLevel>(level);
+  if (kind == 3)
+  {
+    switch (level)
+    {
+    case 0: LOGV_TRACE_L3(l, "v", next_counter()); break;
+    case 1: LOGV_TRACE_L2(l, "v", next_counter()); break;
+    case 2: LOGV_TRACE_L1(l, "v", next_counter()); break;
+    case 3: LOGV_DEBUG(l, "v", next_counter()); break;
+    case 4: LOGV_INFO(l, "v", next_counter()); break;
+    case 5: LOGV_NOTICE(l, "v", next_counter()); break;
+    case 6: LOGV_WARNING(l, "v", next_counter()); break;
+    case 7: LOGV_ERROR(l, "v", next_counter()); break;
+    default: LOGV_CRITICAL(l, "v", next_counter()); break;
+    }
+    return;
+  }
+  if (kind == 4)
+  {
+    switch (level)
+    {
+    case 0: LOG_TRACE_L3_TAGS(l, TAGS("tg"), "{} tag", next_counter()); break;
+    case 1: LOG_TRACE_L2_TAGS(l, TAGS("tg"), "{} tag", next_counter()); break;
+    case 2: LOG_TRACE_L1_TAGS(l, TAGS("tg"), "{} tag", next_counter()); break;
+    case 3: LOG_DEBUG_TAGS(l, TAGS("tg"), "{} tag", next_counter()); break;
+    case 4: LOG_INFO_TAGS(l, TAGS("tg"), "{} tag", next_counter()); break;
+    case 5: LOG_NOTICE_TAGS(l, TAGS("tg"), "{} tag", next_counter()); break;
+    case 6: LOG_WARNING_TAGS(l, TAGS("tg"), "{} tag", next_counter()); break;
+    case 7: LOG_ERROR_TAGS(l, TAGS("tg"), "{} tag", next_counter()); break;
+    default: LOG_CRITICAL_TAGS(l, TAGS("tg"), "{} tag", next_counter()); break;
+    }
+    return;
+  }
   if (kind == 1)
   {
     LOG_DYNAMIC(l, ll, "{} dyn", next_counter());
@@ -131,7 +163,8 @@ static void product(long shard, long nshards)
             for (int ll = 0; ll <= 9; ++ll) // 9 = LogLevel::None
             {
               l->set_log_level(ll == 9 ? LogLevel::None : static_cast<LogLevel>(ll));
-              for (int kind = 0; kind < 3; ++kind)
+              // the value-macro and tags-macro families are enumerated for the configurations without a filter on the first sink
+              for (int kind = 0; kind < (f1 == 0 ? 5 : 3); ++kind)
                 for (int level = 0; level < 9; ++level)
                 {
                   s1->got.clear();
@@ -149,10 +182,12 @@ static void product(long shard, long nshards)
                   if (evaluated != want_enq)
                     report("argument-evaluation", cs, evaluated ? "arguments evaluated although the level is below the logger's" : "arguments not evaluated");
                   int const n = g_counter;
-                  bool const odd = (n % 2) != 0;
+                  bool const odd = kind != 3 && (n % 2) != 0; // (RejectOdd reads the leading number: none in a value-macro message)
                   bool const w1 = want_enq && level >= THR[t1] && !((f1 & 1) && odd) && !(f1 & 2);
                   bool const w2 = want_enq && level >= THR[t2] && !((f2 & 1) && odd) && !(f2 & 2);
-                  std::string const msg = std::to_string(n) + (kind == 0 ? " st" : kind == 1 ? " dyn" : " rt");
+                  // RejectOdd looks at the leading number of the message: the value macros put it at the end
+                  std::string const msg = kind == 3 ? "v [next_counter(): " + std::to_string(n) + "]"
+                                                    : std::to_string(n) + (kind == 0 ? " st" : kind == 1 ? " dyn" : kind == 2 ? " rt" : " tag");
                   auto chk = [&](CapSink& s, bool want, int which, std::string const& line)
                   {
                     if (s.got.size() != (want ? 1u : 0u))
